@@ -17,9 +17,11 @@ import time
 VERIF = os.path.dirname(os.path.abspath(__file__))
 REPO = os.environ.get("VERIF_REPO", "/repo")
 BUILD = os.path.join(VERIF, ".build")
+if REPO != "/repo":  # scratch worktree (seeded-change experiments): separate generated files and binaries
+    BUILD = os.path.join(VERIF, ".build", "alt-" + hashlib.sha1(REPO.encode()).hexdigest()[:8])
 GEN = os.path.join(BUILD, "gen")
 BIN = os.path.join(BUILD, "bin")
-WORK = os.path.join(VERIF, ".work")
+WORK = os.path.join(VERIF, ".work") if REPO == "/repo" else os.path.join(VERIF, ".work", "alt-" + hashlib.sha1(REPO.encode()).hexdigest()[:8])
 MODULE = "github.com/markusressel/fan2go"
 SHIM = "internal/verifshim"
 GO = os.environ.get("VERIF_GO", "go1.26")
@@ -79,9 +81,7 @@ def gen_build_files():
                 overlay[os.path.join(REPO, rel, "zz_verif_" + f)] = os.path.join(dp, f)
     # generated import rewrites (from the CURRENT repo files)
     rw = os.path.join(GEN, "rewrite")
-    if os.path.isdir(rw):
-        shutil.rmtree(rw)
-    os.makedirs(rw)
+    os.makedirs(rw, exist_ok=True)
     cdir = os.path.join(REPO, "internal", "controller")
     for f in sorted(os.listdir(cdir)):
         if f.endswith(".go") and not f.endswith("_test.go"):
@@ -89,7 +89,7 @@ def gen_build_files():
             new = _rewrite_import(src, "sync", MODULE + "/" + SHIM + "/vsync", "sync")
             if new is not None:
                 out = os.path.join(rw, "controller_" + f)
-                open(out, "w").write(new)
+                _write_if_changed(out, new)
                 overlay[os.path.join(cdir, f)] = out
     bfile = os.path.join(REPO, "internal", "backend.go")
     if os.path.exists(bfile):
@@ -97,7 +97,7 @@ def gen_build_files():
         new = _rewrite_import(src, "os/signal", MODULE + "/" + SHIM + "/vsignal", "signal")
         if new is not None:
             out = os.path.join(rw, "internal_backend.go")
-            open(out, "w").write(new)
+            _write_if_changed(out, new)
             overlay[bfile] = out
     _write_if_changed(os.path.join(GEN, "overlay.json"), json.dumps({"Replace": overlay}, indent=1, sort_keys=True))
     return overlay
@@ -109,8 +109,10 @@ def _write_if_changed(path, content):
             return
     except OSError:
         pass
-    with open(path, "w") as f:
+    tmp = path + ".tmp%d" % os.getpid()
+    with open(tmp, "w") as f:
         f.write(content)
+    os.replace(tmp, path)
 
 
 def build_test(pkg, out_name, race=False, timeout=900):
